@@ -359,6 +359,10 @@ func sameMsg(a, b *Msg) bool {
 	return bytes.Equal(x, y)
 }
 
+// the frame returned by the previous Write and a private copy of its bytes: a frame handed to the
+// transport must keep its bytes while later frames are encoded (getty encodes first, writes later)
+var prevFrame, prevFrameCopy []byte
+
 func writeFrame(m message.RpcMessage) ([]byte, error) {
 	var out []byte
 	var err error
@@ -369,6 +373,11 @@ func writeFrame(m message.RpcMessage) ([]byte, error) {
 	if class != hutil.OutOK {
 		return nil, fmt.Errorf("Write: %s %s", class, detail)
 	}
+	if prevFrame != nil && !bytes.Equal(prevFrame, prevFrameCopy) {
+		prevFrame, prevFrameCopy = nil, nil
+		return out, fmt.Errorf("the frame returned by the previous Write was overwritten by this Write (buffers shared between calls)")
+	}
+	prevFrame, prevFrameCopy = out, append([]byte{}, out...)
 	return out, nil
 }
 
